@@ -123,102 +123,197 @@ def rule_P(ctx):
 
 
 def rule_G(ctx):
-    """C07.G orientation of each edge polyline, shared vertex dropped, reversed once"""
+    """C07.G reconstruction of the route: node list, orientation of each edge polyline, junction vertices once, no sharing.
+
+    run_routing_backward only moves objects around and takes one decision per edge (is the current node the edge's source?).  Its body -
+    and whatever helper it calls - is interpreted by tlint.orders (nothing executed) on a chain S-A-B-T whose three edges are stored in
+    each of the 2^3 orientation patterns, with predecessor links as the forward search leaves them, labels all zero (zero-weight
+    edges) or increasing, plus a one-edge route and an unreachable target.  Tracks are abstract vertex sequences whose copy / reverse /
+    > n / + are modelled after Track (deep copy, deep reversed copy, tail, concatenation keeping the operands' vertex objects)."""
+    import itertools
+    from .. import absint, orders
     f, body, wl = _backward(ctx)
-    w = Walker(f, loop_mode='skip', solve_eq=False)
-    cur = None
-    for n in ast.walk(wl.test):
-        if isinstance(n, ast.Attribute) and n.attr == 'antecedent':
-            cur = unparse(n.value)
-    st = State()
-    for v in names_stored(wl.body):
-        st.env[v] = Rat.atom(v)
-    bouts = [o for o in w.run(wl.body, st) if o.kind in ('fall', 'continue')]
-    if not bouts:
-        raise shape_error('run_routing_backward: loop body has no normal path', f.loc(wl))
-    E = 'self.EDGES[%s.antecedent_edge]' % cur
-    # the statement `track = track + <piece>` (object concatenation: operand order matters)
-    cat = None
-    for s_ in wl.body:
-        if isinstance(s_, ast.Assign) and isinstance(s_.targets[0], ast.Name) and isinstance(s_.value, ast.BinOp) \
-                and isinstance(s_.value.op, ast.Add):
-            cat = (s_.targets[0].id, s_.value.left, s_.value.right, s_)
-        if isinstance(s_, ast.AugAssign) and isinstance(s_.target, ast.Name) and isinstance(s_.op, ast.Add):
-            cat = (s_.target.id, ast.Name(id=s_.target.id, ctx=ast.Load()), s_.value, s_)
-    if cat is None:
-        raise shape_error('run_routing_backward: cannot find `track = track + piece`', f.loc(wl))
-    tvar, left, right, catnode = cat
-    ctx.check(isinstance(left, ast.Name) and left.id == tvar, 'C07.G', f,
-              'each piece is appended after what has been chained so far', witness={'statement': unparse(catnode)},
-              node=catnode, key='append-order')
-    pe = right
-    drop1 = False
-    if isinstance(pe, ast.Compare) and len(pe.ops) == 1 and isinstance(pe.ops[0], ast.Gt) and \
-            isinstance(pe.comparators[0], ast.Constant) and pe.comparators[0].value == 1:
-        drop1, pe = True, pe.left
-    elif isinstance(pe, ast.Subscript) and unparse(pe.slice) == '1:':
-        drop1, pe = True, pe.value
-    for o in bouts:
-        # value of the piece expression on this path, just before the concatenation
-        stp = State(dict(o.state.env))
-        for e_ in o.state.events:
-            if e_.kind == 'assign' and e_.node is not catnode and e_.name in {n.id for n in ast.walk(pe) if isinstance(n, ast.Name)}:
-                stp.env[e_.name] = e_.value
-        stp.env[cur] = Rat.atom(cur)
-        pv = w.ex(pe, stp)
-        piece = pv.single_atom() if isinstance(pv, Rat) else repr(pv)
-        piece = piece or repr(pv)
-        reversed_ = '.reverse()' in piece
-        base_ok = (E + '.geom') in piece
-        pathtxt = [repr(c) for c, _ in o.state.conds]
-        ctx.check(base_ok, 'C07.G', f, 'the piece appended is the geometry of the predecessor edge of the current node',
-                  witness={'piece': piece}, node=wl, key='piece-edge')
-        ctx.check(drop1, 'C07.G', f, 'each piece is appended without its first vertex (the junction is already there)',
-                  witness={'piece': piece}, node=wl, key='drop-first')
-        # orientation by end-point case
-        bad = None
-        for case in ('node=source', 'node=target', 'node=both'):
-            def orc(c, case=case):
-                if c.kind == 'cmp' and c.op in ('==', '!=') and isinstance(c.a, Rat) and isinstance(c.b, Rat):
-                    names = {vr(c.a), vr(c.b)}
-                    if names == {E + '.source', cur}:
-                        v = case in ('node=source', 'node=both')
-                    elif names == {E + '.target', cur}:
-                        v = case in ('node=target', 'node=both')
-                    else:
-                        return None
-                    return v if c.op == '==' else not v
-                return None
-            if not all(cond_eval(c, orc) is not False for c, _ in o.state.conds):
-                continue
-            if case == 'node=source' and reversed_:
-                bad = (case, 'reversed although the edge already starts at the current node')
-            if case == 'node=target' and not reversed_:
-                bad = (case, 'not reversed although the edge ends at the current node')
-        ctx.check(bad is None, 'C07.G', f,
-                  'walking target->source, every piece starts at the current node: the stored polyline is reversed '
-                  'exactly when the current node is its target',
-                  witness={'case': bad[0] if bad else None, 'problem': bad[1] if bad else None,
-                           'piece': piece, 'path conditions': pathtxt}, node=wl, key='orient')
-    # result: reversed once, path = reversed node list, starts from the target position
-    w2 = Walker(f, loop_mode='skip', solve_eq=False)
-    outs = [o for o in w2.run(body, State()) if o.kind == 'return' and o.value is not None]
-    if not outs:
-        raise shape_error('run_routing_backward returns no track', f.loc())
-    for o in outs:
-        v = o.value
-        ctx.check(isinstance(v, Rat) and (v.single_atom() or '').endswith('.reverse()') and
-                  (v.single_atom() or '').count('.reverse()') == 1, 'C07.G', f,
-                  'the chained geometry (built target->source) is reversed once before being returned',
-                  witness={'returned': repr(v)[:200]}, node=o.node, key='final-reverse')
-        ps = [e for e in o.state.events if e.kind == 'store' and e.index == 'path']
-        ctx.check(len(ps) == 1 and isinstance(ps[0].value, Rat) and '::-1' in (ps[0].value.single_atom() or ''), 'C07.G', f,
-                  'the node list (built target->source) is reversed into source->target order',
-                  witness={'path store': [repr(e) for e in ps]}, node=o.node, key='path-reverse')
-        first = [e for e in o.state.events if e.kind == 'call' and e.name == 'addObs']
-        ctx.check(bool(first) and 'coord' in (first[0].value or ''), 'C07.G', f,
-                  'the geometry starts with the position of the target node', witness={'first': repr(first[:1])},
-                  node=o.node, key='start')
+
+    class V(orders.PyStub):
+        """a vertex object (identity matters: sharing it with the network is a defect)"""
+        def __init__(self, tag, xyz=(0.0, 0.0, 0.0)):
+            self.tag, self.xyz = tag, xyz
+
+        def copy(self):
+            return V(self.tag, self.xyz)
+
+        def getX(self):
+            return self.xyz[0]
+
+        def getY(self):
+            return self.xyz[1]
+
+        def getZ(self):
+            return self.xyz[2]
+
+        def distance2DTo(self, o):
+            return ((self.xyz[0] - o.xyz[0]) ** 2 + (self.xyz[1] - o.xyz[1]) ** 2) ** 0.5
+
+        def distanceTo(self, o):
+            return sum((a_ - b_) ** 2 for a_, b_ in zip(self.xyz, o.xyz)) ** 0.5
+
+        def __repr__(self):
+            return str(self.tag)
+
+    class ObsS(orders.PyStub):
+        def __init__(self, position):
+            self.position = position
+
+        def copy(self):
+            return ObsS(self.position.copy())
+
+    class Trk(orders.PyStub):
+        isa = ('Track',)
+
+        def __init__(self, obs=None, *a_, **k_):
+            self.obs = list(obs or [])
+
+        def _carry(self, t):
+            if hasattr(self, 'path'):
+                t.path = list(self.path) if isinstance(self.path, list) else self.path
+            return t
+
+        def copy(self):
+            return self._carry(Trk([o.copy() for o in self.obs]))
+
+        def reverse(self):
+            return self._carry(Trk([o.copy() for o in reversed(self.obs)]))
+
+        def addObs(self, o):
+            self.obs.append(o)
+
+        def size(self):
+            return len(self.obs)
+
+        def __len__(self):
+            return len(self.obs)
+
+        def __gt__(self, n):
+            if not isinstance(n, int):
+                raise orders.Unsupported('track > %r' % (n,))
+            return Trk(self.obs[n:])
+
+        def __lt__(self, n):
+            if not isinstance(n, int):
+                raise orders.Unsupported('track < %r' % (n,))
+            return Trk(self.obs[:len(self.obs) - n])
+
+        def __add__(self, o):
+            if not isinstance(o, Trk):
+                raise orders.Unsupported('track + %r' % (o,))
+            return Trk(self.obs + o.obs)
+
+        def __getitem__(self, k):
+            if isinstance(k, slice):
+                return Trk(self.obs[k])
+            return self.obs[k]
+
+        def tags(self):
+            return [o.position.tag for o in self.obs]
+
+        def getFirstObs(self):
+            return self.obs[0]
+
+        def getLastObs(self):
+            return self.obs[-1]
+
+        def getObs(self, k):
+            return self.obs[k]
+
+    # A-B is a vertical edge (a lift shaft): its two ends share x and y
+    XYZ = {'S': (0.0, 0.0, 0.0), 'A': (10.0, 0.0, 0.0), 'B': (10.0, 0.0, 5.0), 'T': (20.0, 0.0, 5.0), 'X': (50.0, 50.0, 0.0)}
+
+    class Node(orders.PyStub):
+        isa = ('Node',)
+
+        def __init__(self, nid):
+            self.id = nid
+            self.coord = V('position of node %s' % nid, XYZ[nid])
+            self.antecedent = ''
+            self.antecedent_edge = ''
+            self.poids = -1
+            self.visite = False
+
+        def __repr__(self):
+            return 'node %s' % self.id
+
+    class Edge(orders.PyStub):
+        isa = ('Edge',)
+
+        def __init__(self, eid, src, tgt):
+            self.id, self.source, self.target = eid, src, tgt
+            self.weight = 1.0
+            mid = tuple((a_ + b_) / 2 for a_, b_ in zip(XYZ[src.id], XYZ[tgt.id]))
+            self.geom = Trk([ObsS(V('position of node %s' % src.id, XYZ[src.id])), ObsS(V('inner vertex of edge %s' % eid, mid)),
+                             ObsS(V('position of node %s' % tgt.id, XYZ[tgt.id]))])
+    fn = absint.funcs(ctx, NET.rsplit('.', 1)[0], {'Track': lambda *a_, **k_: Trk(*a_), 'Obs': lambda p_, *a_: ObsS(p_)})
+    bad = None
+    n_cases = 0
+    chain = ['S', 'A', 'B', 'T']
+    try:
+        for length in (3, 1):
+            names = ['S', 'T'] if length == 1 else chain
+            for flips in itertools.product((False, True), repeat=len(names) - 1):
+                for zero in (False, True):
+                    nodes = {k: Node(k) for k in names + ['X']}            # X is unreachable
+                    edges = {}
+                    for i in range(len(names) - 1):
+                        a_, b_ = nodes[names[i]], nodes[names[i + 1]]
+                        eid = 'e%d' % i
+                        edges[eid] = Edge(eid, b_ if flips[i] else a_, a_ if flips[i] else b_)
+                        b_.antecedent, b_.antecedent_edge = a_, eid
+                        b_.poids = 0 if zero else float(i + 1)
+                    nodes['S'].poids = 0
+                    net = absint.instance(ctx, NET, {'NODES': nodes, 'EDGES': edges}, fn)
+                    n_cases += 1
+                    res = net.call('run_routing_backward', 'T')
+                    case = {'route': '-'.join(names), 'edges stored against the direction of travel': [('e%d' % i) for i, fl_ in enumerate(flips) if fl_],
+                            'labels': 'all zero (zero-weight edges)' if zero else 'increasing'}
+                    if not isinstance(res, Trk):
+                        bad = ('path', 'a reachable target yields a route (reconstruction follows the predecessor links, whatever the labels)', dict(case, returned=repr(res)))
+                        break
+                    want = ['position of node S']
+                    for i in range(len(names) - 1):
+                        want += ['inner vertex of edge e%d' % i, 'position of node %s' % names[i + 1]]
+                    if res.tags() != want:
+                        bad = ('geometry', "the geometry is the edges' polylines chained end to end, each oriented along the direction of travel, junction vertices once, "
+                               'from the source node position to the target node position', dict(case, geometry=res.tags(), expected=want))
+                        break
+                    if getattr(res, 'path', None) != names:
+                        bad = ('node-list', 'the node list runs from the source to the target', dict(case, path=repr(getattr(res, 'path', None)), expected=names))
+                        break
+                    shared = [o.position.tag for o in res.obs if any(o is g_ or o.position is g_.position for e_ in edges.values() for g_ in e_.geom.obs)
+                              or any(o.position is nd.coord for nd in nodes.values())]
+                    if shared:
+                        bad = ('sharing', 'the route returned shares no observation or position object with the network (editing a route must not move the network)',
+                               dict(case, **{'shared vertices': shared}))
+                        break
+                    unr = net.call('run_routing_backward', 'X')
+                    if unr is not None:
+                        bad = ('unreachable', 'an unreachable target yields no route', dict(case, returned=repr(unr)))
+                        break
+                if bad:
+                    break
+            if bad:
+                break
+    except orders.Unsupported as ex:
+        raise shape_error('run_routing_backward not interpretable: %s' % ex, f.loc())
+    except (IndexError, KeyError, TypeError, AttributeError) as ex:
+        bad = ('fails', 'the reconstruction does not fail', {'exception': '%s: %s' % (type(ex).__name__, ex)})
+    if bad:
+        ctx.violation('C07.P' if bad[0] in ('path', 'unreachable') else 'C07.G', f, bad[1], bad[2], node=f.node, key=bad[0])
+    else:
+        ctx.ok('C07.G', f, 'route geometry = edge polylines chained along the direction of travel, junction vertices once, source position to target position: '
+                           '%d interpreted routes (all orientation patterns of a 3-edge and a 1-edge chain, zero and increasing labels)' % n_cases, node=f.node)
+        ctx.ok('C07.G', f, 'the node list runs source -> target', node=f.node)
+        ctx.ok('C07.G', f, 'the route shares no observation / position object with the network', node=f.node)
+        ctx.ok('C07.P', f, 'a reachable target yields a route whatever the labels (zero-weight edges included); an unreachable one yields none', node=f.node)
+    tr = ctx.prog.func(TRACK + '.reverse')
     # Track.reverse returns an independent (deep) copy in reversed order
     tr = ctx.prog.func(TRACK + '.reverse')
     wt = Walker(tr, loop_mode='skip')
@@ -288,6 +383,8 @@ def rule_F(ctx):
     """C07.F forward pass: relaxation, queue key, expansion order (shared with C06.R)"""
     from . import c06
     c06.rule_R(_Proxy(ctx))
+    # ... and every edge added is traversable by the search in its permitted directions (parallel edges included): C06.O
+    c06.rule_O(_Proxy(ctx))
 
 
 def rule_S(ctx):
